@@ -998,6 +998,34 @@ func main() {
 		runSchemaConc(out, root, id, progs, sched, "random")
 		id++
 	}
+	flushDirected(out, root, &id)
+	for i := 0; i < nConc; i++ {
+		nt := r.Range(2, 3)
+		progs := make([][]int, nt)
+		for t := range progs {
+			for j := r.Range(1, 4); j > 0; j-- {
+				progs[t] = append(progs[t], r.Intn(4))
+			}
+		}
+		var sched []int
+		for j := r.Range(2, 16); j > 0; j-- {
+			if r.Chance(35) {
+				// a flush event; a complete flush (PrepareFlush, Flush) more often than a lone half
+				switch r.Intn(4) {
+				case 0:
+					sched = append(sched, nt)
+				case 1:
+					sched = append(sched, nt+1)
+				default:
+					sched = append(sched, nt, nt+1)
+				}
+			} else {
+				sched = append(sched, r.Intn(nt))
+			}
+		}
+		runFlushConc(out, root, id, progs, sched, "random")
+		id++
+	}
 	out.Notes = append(out.Notes, "crash = copy of the database directories taken at an operation boundary or at a scheduling point inside MetricMetaDatabase.Flush; the image is then opened as the recovered database")
 	out.Finish()
 }
